@@ -459,7 +459,7 @@ type ExprSpec struct {
 	CallLP, CallRP int
 	ExprRule int
 	// Twists that must NOT be settled by precedence (C04):
-	Twist string // "", "unqualified-op", "cross-rule", "reduce-reduce", "mixed-assoc-level", "mixed-shift-levels"
+	Twist string // "", "unqualified-op", "unqualified-prefix", "unqualified-postfix", "cross-rule", "reduce-reduce", "mixed-assoc-level", "mixed-shift-levels"
 }
 
 var opTokNames = []string{"PLUS", "MINUS", "STAR", "SLASH", "POW", "EQ", "LT", "AND"}
@@ -511,6 +511,21 @@ func ExprGrammar(r *rng.R, twist string) *ExprSpec {
 		es.Unary = addTok("NEG", "~")
 		es.UnaryLvl = r.Range(1, nLevels+1)
 		prods = append(prods, gram.Prod{Terms: []gram.Term{tok(es.Unary), {Ref: e}}, Qual: &gram.Qual{Right: r.Chance(1, 2), N: es.UnaryLvl}})
+	}
+	switch twist {
+	case "unqualified-prefix":
+		// a prefix operator alternative without a qualifier next to the
+		// qualified binary ones: its conflicts with them are not settled
+		neg := addTok("NEG", "~")
+		prods = append(prods, gram.Prod{Terms: []gram.Term{tok(neg), {Ref: e}}})
+	case "unqualified-postfix":
+		bang := addTok("BANG", "!")
+		if r.Chance(1, 2) {
+			prods = append(prods, gram.Prod{Terms: []gram.Term{{Ref: e}, tok(bang)}})
+		} else {
+			lb, rb := addTok("LB", "["), addTok("RB", "]")
+			prods = append(prods, gram.Prod{Terms: []gram.Term{{Ref: e}, tok(lb), {Ref: e}, tok(rb)}})
+		}
 	}
 	if es.LP >= 0 {
 		prods = append(prods, gram.Prod{Terms: []gram.Term{tok(es.LP), {Ref: e}, tok(es.RP)}})
@@ -605,4 +620,26 @@ func NotLALRGrammar(r *rng.R) *gram.Grammar {
 		g.Start = 3
 	}
 	return g
+}
+
+var renameRulePool = []string{"Aa", "Bee", "alpha", "Delta", "eps", "Expr", "Gam", "item", "Kap", "lam", "Mu", "nu", "Omega", "pi", "Quo", "rho", "Sig", "tau", "Ups", "v1", "Wye", "xi", "Yod", "zed", "Zz", "q_1", "T9", "a0"}
+var renameTokPool = []string{"AA", "BEE", "CH", "D1", "EPS", "FF", "GAM", "HH", "II", "JOT", "KAP", "LPAREN", "MU", "NUM", "OO", "PLUS", "QQ", "RPAREN", "SIG", "TAU", "UU", "VEE", "WYE", "XI", "YOD", "ZED", "ZZ", "Z_9", "A_0", "M1"}
+
+// RenameSymbols gives rules and tokens names whose relative order (ASCII:
+// upper case before lower case) is arbitrary: capitalised and lower-case rule
+// names, token names from A to Z. Anything in the generator that depends on
+// the order of symbol names sees every arrangement, not only "all tokens
+// before all rules".
+func RenameSymbols(r *rng.R, g *gram.Grammar) {
+	if g.CustomLexer != "" || len(g.LexExtra) > 0 || len(g.Rules) > len(renameRulePool) || len(g.Tokens) > len(renameTokPool) {
+		return
+	}
+	pr := r.Perm(len(renameRulePool))
+	for i := range g.Rules {
+		g.Rules[i].Name = renameRulePool[pr[i]]
+	}
+	pt := r.Perm(len(renameTokPool))
+	for i := range g.Tokens {
+		g.Tokens[i].Name = renameTokPool[pt[i]]
+	}
 }
